@@ -21,6 +21,8 @@ THEOREMS = [
     "map_refines", "map_refines_from", "map_refines_nil",
     "range_visits_increasing", "range_visits_nodup", "range_skips_deleted", "range_visit_live", "range_spec", "range_readonly",
     "range_forms_same_walk", "range_spec_forms", "range_forms_skip_deleted", "seeded_unbound_counterexample",
+    "typComparable_eq_spec", "unhashable_iff_some_field_unhashable", "unhashable_array_iff", "keyFor_ignores_blank_values_only",
+    "seeded_comparable_counterexample",
 ]
 
 INT_KINDS = {
@@ -1227,6 +1229,191 @@ def run_enum(chk, tier):
                     spec=[x.split(" ")[3] for x in jm])
 
 
+# --------------------------------------------------------------------------------------
+# unhashable dynamic key types: grid of types with the unhashable component in a named / blank / embedded field or in an
+# array element, nested to depth 3.  Grid type = tuple: ("i",) ("s",) ("e",) ("sl",) ("mp",) ("fn",) ("a", n, t) ("st", [(kind, t)])
+# --------------------------------------------------------------------------------------
+
+def grid_tok(t):
+    if t[0] == "a":
+        return "a%d,%s" % (t[1], grid_tok(t[2]))
+    if t[0] == "st":
+        return ",".join(["st%d" % len(t[1])] + ["%s,%s" % (k, grid_tok(f)) for k, f in t[1]])
+    return t[0]
+
+
+def grid_comparable(t):
+    """Go spec, my reading (same as GV.Spec.GoComparable.comparable)"""
+    if t[0] in ("sl", "mp", "fn"):
+        return False
+    if t[0] == "a":
+        return grid_comparable(t[2])
+    if t[0] == "st":
+        return all(grid_comparable(f) for _, f in t[1])
+    return True
+
+
+def grid_wraps(t):
+    I, S = ("i",), ("s",)
+    return [("a", 1, t), ("a", 0, t), ("st", [("N", t)]), ("st", [("B", t)]), ("st", [("M", t)]),
+            ("st", [("B", t), ("N", I)]), ("st", [("N", S), ("N", t)]), ("st", [("N", I), ("B", t)])]
+
+
+def grid_levels(rng, tier):
+    l0 = [("i",), ("s",), ("sl",), ("mp",), ("fn",)]
+    l1 = [w for t in l0 + [("e",)] for w in grid_wraps(t)]
+    l2 = [w for t in l1 for w in grid_wraps(t)]
+    l3 = [w for t in l2 for w in grid_wraps(t)]
+    if tier != "thorough":
+        l3 = rng.sample(l3, 600)
+    return l0, l1, l2, l3
+
+
+class GoGrid:
+    """Go source for grid types (embedded fields need named types)"""
+
+    def __init__(self):
+        self.decls = []
+
+    def gotype(self, t):
+        k = t[0]
+        if k == "i": return "int"
+        if k == "s": return "string"
+        if k == "e": return "interface{}"
+        if k == "sl": return "[]int"
+        if k == "mp": return "map[string]int"
+        if k == "fn": return "func()"
+        if k == "a": return "[%d]%s" % (t[1], self.gotype(t[2]))
+        fs = []
+        for i, (kind, f) in enumerate(t[1]):
+            ty = self.gotype(f)
+            if kind == "B":
+                fs.append("_ " + ty)
+            elif kind == "M":
+                name = "Em%d" % len(self.decls)
+                self.decls.append("type %s %s" % (name, ty))
+                fs.append(name)
+            else:
+                fs.append("F%d %s" % (i, ty))
+        return "struct{ " + "; ".join(fs) + " }" if fs else "struct{}"
+
+
+HASH_OPS = ["insert", "lookup", "commaok", "delete", "literal", "rangedel", "emptylookup", "nested-struct", "nested-array"]
+
+HASH_HEAD = r"""package main
+
+func try(name string, f func()) {
+	defer func() {
+		r := recover()
+		if r == nil {
+			println(name, "ok")
+			return
+		}
+		if e, ok := r.(interface{ Error() string }); ok {
+			msg := e.Error()
+			pre := "runtime error: hash of unhashable type "
+			if len(msg) >= len(pre) && msg[:len(pre)] == pre {
+				println(name, "panic:unhashable")
+				return
+			}
+			println(name, "panic:other:"+msg)
+			return
+		}
+		println(name, "panic:non-error")
+	}()
+	f()
+}
+
+type sk struct{ k interface{} }
+"""
+
+HASH_CASE = r"""
+type H%(n)d = %(ty)s
+
+func h%(n)d() {
+	var z H%(n)d
+	m := map[interface{}]int{1: 1, "x": 2}
+	try("h%(n)d insert", func() { m[z] = 1 })
+	try("h%(n)d lookup", func() { _ = m[z] })
+	try("h%(n)d commaok", func() { _, ok := m[z]; _ = ok })
+	try("h%(n)d delete", func() { delete(m, z) })
+	try("h%(n)d literal", func() { _ = map[interface{}]bool{z: true} })
+	try("h%(n)d rangedel", func() {
+		for range m {
+			delete(m, z)
+		}
+	})
+	try("h%(n)d emptylookup", func() { _ = map[interface{}]int{}[z] })
+	ms := map[sk]int{}
+	try("h%(n)d nested-struct", func() { ms[sk{z}] = 1 })
+	ma := map[[1]interface{}]int{}
+	try("h%(n)d nested-array", func() { ma[[1]interface{}{z}] = 1 })
+}
+"""
+
+
+def run_hash(chk, tier):
+    """(1) the real `typ.comparable` getter and `$ifaceKeyFor` on the whole type grid (prelude runner) vs the Lean model
+    (= Go spec, proved); (2) compiled programs: every map operation with such dynamic keys, GopherJS vs model vs native Go."""
+    rng = chk.rng
+    l0, l1, l2, l3 = grid_levels(rng, tier)
+    grid = l0 + l1 + l2 + l3
+    ops = ["mapkey hash " + grid_tok(t) for t in grid]
+    impl = C.run_node(ops)
+    model = C.run_driver("C15", ops)
+    bad = [(o, a, b) for o, a, b in zip(ops, impl, model) if a.startswith("runner-error") or a.startswith("bad") or b.startswith("bad") or "err:" in a]
+    if bad:
+        raise RuntimeError("C15 harness failure (hash grid): %r" % (bad[:2],))
+    for t, b in zip(grid, model):
+        if (b[0] == "1") != grid_comparable(t):
+            raise RuntimeError("C15 model bug: comparable(%s) = %s" % (grid_tok(t), b))
+
+    def kind(o, a):
+        tk = o.split()[2]
+        return "hash:%s%s%s:%s" % ("blank" if ",B," in "," + tk else "", "+emb" if ",M," in "," + tk else "", "+arr" if tk.startswith("a") or ",a" in tk else "",
+                                   "comparable" if a[0] == "1" else "unhashable")
+    chk.compare("hash-grid", ops, impl, model, kind=kind)
+    chk.extra["hash_grid_types"] = len(grid)
+    # programs: unhashable only through a blank field (the interesting class), through embedded / named fields, arrays, plus controls
+    def pick(pool, pred, n):
+        c = [t for t in pool if pred(t)]
+        return rng.sample(c, min(n, len(c)))
+    blank_only = lambda t: (not grid_comparable(t)) and ",B," in "," + grid_tok(t) and ",M," not in "," + grid_tok(t)
+    sel = []
+    nq = 2 if tier != "thorough" else 6
+    for pool in (l1, l2, l3):
+        sel += pick(pool, blank_only, 3 * nq) + pick(pool, lambda t: not grid_comparable(t) and not blank_only(t), 2 * nq) + pick(pool, grid_comparable, nq)
+    sel += [("st", [("B", ("sl",)), ("N", ("i",))]), ("st", [("B", ("a", 0, ("fn",))), ("N", ("i",))]),
+            ("st", [("N", ("s",)), ("N", ("st", [("B", ("sl",)), ("N", ("i",))]))]), ("a", 1, ("st", [("B", ("sl",)), ("N", ("i",))])),
+            ("st", [("B", ("i",)), ("N", ("i",))]), ("sl",), ("i",)]
+    gg = GoGrid()
+    body = "".join(HASH_CASE % {"n": n, "ty": gg.gotype(t)} for n, t in enumerate(sel))
+    src = HASH_HEAD + "\n".join(gg.decls) + "\n" + body + "\nfunc main() {\n" + "".join("\th%d()\n" % n for n in range(len(sel))) + "}\n"
+    res = progs.run_jobs([{"id": "c15hash", "files": {"main.go": src}, "variants": ["plain", "minify"], "native": True, "timeout": 900}])[0]
+    nat = progs.observe_native(res["runs"]["native"])
+    if nat[1] != "exit0":
+        raise RuntimeError("hash-grid program does not run natively: %s\n%s" % (nat[1], res["runs"]["native"].get("stderr", res["runs"]["native"].get("err", ""))[-1500:]))
+    manswers = C.run_driver("C15", ["mapkey hash " + grid_tok(t) for t in sel])
+    for variant in ("plain", "minify"):
+        js = progs.observe_js(res["runs"][variant])
+        for n, (t, ma) in enumerate(zip(sel, manswers)):
+            exp = "ok" if ma.split()[1] == "key" else "panic:unhashable"
+            model_l = ["h%d %s %s" % (n, op, exp) for op in HASH_OPS]
+            impl_l = [l for l in js[0] if l.startswith("h%d " % n)]
+            spec_l = [l for l in nat[0] if l.startswith("h%d " % n)]
+            opid = "c15hash/%s dynamic key type %s (%s)" % (variant, gg.gotype(t), grid_tok(t))
+            chk.add_case("hash-programs", opid, True, "hashprog:" + ("comparable" if exp == "ok" else "unhashable"),
+                         sample={"tie": "hash-programs", "op": opid, "impl": impl_l[:2], "model": model_l[:2], "spec": spec_l[:2]})
+            if impl_l != spec_l:
+                d = [i for i in range(max(len(impl_l), len(spec_l))) if i >= len(impl_l) or i >= len(spec_l) or impl_l[i] != spec_l[i]]
+                chk.add_mismatch("hash-programs", opid, [impl_l[i] for i in d[:3] if i < len(impl_l)], [spec_l[i] for i in d[:3] if i < len(spec_l)], model=model_l[:1])
+            if impl_l != model_l:
+                chk.add_tie_break("hash-programs", opid, impl_l[:3], model_l[:3])
+        if js[1] != "exit0":
+            chk.add_mismatch("hash-programs", "c15hash/%s ending" % variant, js[1], "exit0")
+    chk.extra["hash_program_types"] = len(sel)
+
+
 def run(tier, seed):
     chk = C.Check("C15", tier, seed)
     chk.rule = ("(a) pairs of typed key values: key types generated from the comparable kinds nested to depth 3 (type objects built with the "
@@ -1251,6 +1438,7 @@ def run(tier, seed):
     run_pairs(chk, tier)
     run_programs(chk, tier)
     run_enum(chk, tier)
+    run_hash(chk, tier)
     return chk.finish()
 
 
